@@ -19,6 +19,10 @@ func New(ctx context.Context, cfg config.Config) (*db, error) {
 	}
 
 	container := di.New(cfg)
+	// The container builds its dependencies lazily and without synchronisation:
+	// build all of them before the handle is shared between goroutines.
+	container.Store()
+	container.Transaction()
 
 	container.Pool().Run(ctx)
 	deleteFiles, err := container.Core().Load(ctx)
